@@ -161,19 +161,19 @@ func RunWorker(reg Registry, o WorkerOpts) error {
 
 // RunOpts configure the parent.
 type RunOpts struct {
-	Property  string
-	Tier      string
-	Seed      int64
-	Workers   int
-	Self      string // path of the binary to fork
-	WorkDir   string // scratch for spool/out files
-	Evidence  string
-	ReplayDir string
-	Known     string
-	Level     string // evidence level
+	Property         string
+	Tier             string
+	Seed             int64
+	Workers          int
+	Self             string // path of the binary to fork
+	WorkDir          string // scratch for spool/out files
+	Evidence         string
+	ReplayDir        string
+	Known            string
+	Level            string // evidence level
 	CrashIsViolation bool
-	WorkerTimeout time.Duration
-	ExtraEvidence map[string]any
+	WorkerTimeout    time.Duration
+	ExtraEvidence    map[string]any
 	// RaceLog, when set, is the GORACE log_path prefix given to workers; report blocks found
 	// there are turned into C17.data-race violations.
 	RaceLog string
